@@ -370,7 +370,7 @@ class Ring:
         else:
             r = None
             if len(p.t) <= 400:
-                if len(p.t) < 25 or getattr(self, "_in_guard", False):
+                if getattr(self, "_in_guard", False):
                     r = self._sympy_factor(p)
                 else:
                     r = self._guarded_factor(p)
